@@ -18,6 +18,7 @@ import Spade.Spec
 import Spade.Proofs.GeomLemmas
 import Spade.Generated.Leaf
 import Spade.Examples
+import Spade.Proofs.FlagInv
 namespace Spade
 
 theorem C03_check_iff (s : St) : decide s.LocallyDelaunayFree = true ↔ s.LocallyDelaunayFree :=
@@ -54,5 +55,23 @@ theorem C03_no_flags (s : St) (h0 : ∀ e, e < s.nE → s.isFlag e = false) :
   · intro h e he _; exact h e he
 
 example : exCdt.LocallyDelaunayFree ∧ ¬ (∀ e, e < exCdt.nE → exCdt.isFlag e = false) := by decide
+
+
+/-! ### on the insertion model M (compared index for index with the implementation, flags included)
+
+`legalize_edge` — the only place where insertion flips edges — skips every constraint edge
+(`is_defined_legal`).  On the model this is a theorem about all executions: -/
+
+/-- legalisation never changes a constraint flag -/
+theorem C03_model_legalize_keeps_flags (s : St) (e : Nat) (fully : Bool) :
+    (s.legalizeEdge e fully).flag = s.flag := St.flag_legalizeLoop _ _ _ _
+
+/-- legalisation never flips a constraint edge: both end points of every constraint edge are the
+same after `legalize_edge`, for any start edge, in any state with the link invariant -/
+theorem C03_model_legalize_never_flips_constraint (s : St) (hs : s.LInv) (start : Nat) (fully : Bool)
+    (e : Nat) (he : e < s.nE) (hfl : s.isFlag e = true) :
+    (s.legalizeEdge start fully).org e = s.org e ∧
+    (s.legalizeEdge start fully).org (s.rv e) = s.org (s.rv e) :=
+  St.legalize_keeps_constraints fully _ hs [start] e he hfl
 
 end Spade
